@@ -259,7 +259,12 @@ impl<const D: usize> GlobalTopologyModel<D> for ToroidalModel<D> {
             if !coord.is_finite() {
                 return Err(GlobalTopologyModelError::NonFiniteCoordinate { axis, value: coord });
             }
-            let wrapped = coord.rem_euclid(period);
+            // `rem_euclid` can round up to the period itself for tiny negative inputs
+            // (e.g. `(-1e-18_f64).rem_euclid(1.0) == 1.0`); the fundamental domain is half-open.
+            let mut wrapped = coord.rem_euclid(period);
+            if wrapped >= period {
+                wrapped = 0.0;
+            }
             *coord_ref = <T as NumCast>::from(wrapped).ok_or(
                 GlobalTopologyModelError::ScalarConversion {
                     axis,
